@@ -1,6 +1,8 @@
 // ASSUMED (A-STD): HashMap::get_mut returns a mutable reference to the value
 // stored under the key (if any); writing through it changes that value only:
-// the key set and every other key's value are unchanged.
+// the key set and every other key's value are unchanged.  ("k2 is not the
+// looked-up key" is phrased as: the singleton map {k2} does not contain the
+// borrowed key.)
 pub assume_specification<'a, K: Eq + core::hash::Hash, V, S: core::hash::BuildHasher, A: core::alloc::Allocator, Q: core::hash::Hash + Eq + ?Sized>[ HashMap::<K, V, S, A>::get_mut::<Q> ](m: &'a mut HashMap<K, V, S, A>, k: &Q) -> (r: Option<&'a mut V>)
     where K: core::borrow::Borrow<Q>
     ensures
@@ -9,7 +11,8 @@ pub assume_specification<'a, K: Eq + core::hash::Hash, V, S: core::hash::BuildHa
                 && vstd::std_specs::hash::maps_borrowed_key_to_value(old(m)@, k, *v)
                 && vstd::std_specs::hash::maps_borrowed_key_to_value(final(m)@, k, *final(v))
                 && final(m)@.dom() == old(m)@.dom()
-                && (forall|k2: K| #[trigger] old(m)@.contains_key(k2) && !vstd::std_specs::hash::maps_borrowed_key_to_value(old(m)@.insert(k2, *v), k, *v) ==> final(m)@[k2] == old(m)@[k2]),
+                && (forall|k2: K| !vstd::std_specs::hash::contains_borrowed_key(Map::<K, V>::empty().insert(k2, *v), k)
+                        ==> (#[trigger] final(m)@[k2]) == old(m)@[k2]),
             None => !vstd::std_specs::hash::contains_borrowed_key(old(m)@, k) && final(m)@ == old(m)@,
         }
 ;
